@@ -538,33 +538,93 @@ func c03c(c *Ctx, r *Report) {
 func c03BuildTrans(c *Ctx, r *Report, f *FuncRef) {
 	const clause = "C03.c"
 	info := f.Pkg.TypesInfo
-	// top-level statements: goto loop, reduce loop, sort, index fill
+	// the two places that append transitions: inside a loop over a state's GoTo list and inside a loop over its
+	// Items. They may sit in two top-level loops (goto loop first) or in one loop over the states (goto part first):
+	// either way, of the transitions of one source state the gotos are appended before the reductions.
 	gotoIdx, redIdx, sortIdx, fillIdx := -1, -1, -1, -1
 	sortKeyOK := false
+	pm := parentMap(f.Decl.Body)
+	var gotoApp, redApp ast.Node
+	ast.Inspect(f.Decl.Body, func(n ast.Node) bool {
+		call, ok := n.(*ast.CallExpr)
+		if !ok || builtinName(info, call) != "append" || len(call.Args) == 0 {
+			return true
+		}
+		if fv := fieldVar(info, call.Args[0]); fv == nil || fv.Name() != "trans" {
+			return true
+		}
+		// innermost enclosing range over .GoTo / .Items
+		for cur := pm[call]; cur != nil; cur = pm[cur] {
+			if rs, ok := cur.(*ast.RangeStmt); ok {
+				if fv := fieldVar(info, rs.X); fv != nil {
+					if fv.Name() == "GoTo" && gotoApp == nil {
+						gotoApp = call
+					}
+					if fv.Name() == "Items" && redApp == nil {
+						redApp = call
+					}
+					if fv.Name() == "GoTo" || fv.Name() == "Items" {
+						break
+					}
+				}
+			}
+		}
+		return true
+	})
+	topIndex := func(n ast.Node) (int, ast.Stmt) {
+		for cur := n; cur != nil; cur = pm[cur] {
+			if pm[cur] == ast.Node(f.Decl.Body) {
+				for i, s := range f.Decl.Body.List {
+					if ast.Node(s) == cur {
+						return i, s
+					}
+				}
+			}
+		}
+		return -1, nil
+	}
+	if gotoApp != nil && redApp != nil {
+		var gs, rs ast.Stmt
+		gotoIdx, gs = topIndex(gotoApp)
+		redIdx, rs = topIndex(redApp)
+		if gs == rs && gs != nil {
+			// one loop over the states: order inside its body decides
+			if outer, ok := gs.(*ast.RangeStmt); ok {
+				gi, ri := -1, -1
+				for i, st := range outer.Body.List {
+					if st.Pos() <= gotoApp.Pos() && gotoApp.End() <= st.End() {
+						gi = i
+					}
+					if st.Pos() <= redApp.Pos() && redApp.End() <= st.End() {
+						ri = i
+					}
+				}
+				if gi >= 0 && ri > gi {
+					redIdx = gotoIdx + 1 // same statement, goto part first: counts as "after"
+					sortIdxShift := 1
+					_ = sortIdxShift
+				} else {
+					redIdx = -1
+				}
+			} else {
+				redIdx = -1
+			}
+		}
+	}
+	mergedShift := 0
+	if gotoApp != nil && redApp != nil {
+		if gi, _ := topIndex(gotoApp); gi >= 0 {
+			if ri, _ := topIndex(redApp); ri == gi && redIdx == gotoIdx+1 {
+				mergedShift = 1
+			}
+		}
+	}
 	for i, s := range f.Decl.Body.List {
 		switch x := s.(type) {
 		case *ast.RangeStmt:
-			appendsTrans := false
-			usesGoTo, usesItems := false, false
 			fill := false
 			ast.Inspect(x, func(n ast.Node) bool {
-				switch y := n.(type) {
-				case *ast.CallExpr:
-					if builtinName(info, y) == "append" && len(y.Args) > 0 {
-						if fv := fieldVar(info, y.Args[0]); fv != nil && fv.Name() == "trans" {
-							appendsTrans = true
-						}
-					}
-				case *ast.SelectorExpr:
-					if fv := fieldVar(info, y); fv != nil {
-						switch fv.Name() {
-						case "GoTo":
-							usesGoTo = true
-						case "Items":
-							usesItems = true
-						}
-					}
-				case *ast.AssignStmt:
+				if y, ok := n.(*ast.AssignStmt); ok {
 					for _, l := range y.Lhs {
 						if fv := fieldVar(info, l); fv != nil && fv.Name() == "Index" {
 							fill = true
@@ -573,18 +633,13 @@ func c03BuildTrans(c *Ctx, r *Report, f *FuncRef) {
 				}
 				return true
 			})
-			switch {
-			case appendsTrans && usesGoTo && gotoIdx < 0:
-				gotoIdx = i
-			case appendsTrans && usesItems:
-				redIdx = i
-			case fill:
-				fillIdx = i
+			if fill {
+				fillIdx = i + mergedShift
 			}
 		case *ast.ExprStmt:
 			if call, ok := x.X.(*ast.CallExpr); ok {
 				if fn := callee(info, call); fn != nil && fn.FullName() == "sort.SliceStable" && len(call.Args) == 2 {
-					sortIdx = i
+					sortIdx = i + mergedShift
 					if fl, ok := call.Args[1].(*ast.FuncLit); ok && len(fl.Body.List) == 1 {
 						if rs, ok := fl.Body.List[0].(*ast.ReturnStmt); ok && len(rs.Results) == 1 {
 							if be, ok := unparen(rs.Results[0]).(*ast.BinaryExpr); ok && be.Op == token.LSS {
@@ -646,6 +701,7 @@ func storesAndCalls(p *PathOut, callSuffix ...string) []string {
 
 func c03d(c *Ctx, r *Report) {
 	const clause = "C03.d"
+	c03OwnStorage(c, r, clause)
 	f := c.need(r, clause, "LALR", "", "Traverse")
 	if f == nil {
 		return
@@ -952,6 +1008,25 @@ func c03Union(c *Ctx, r *Report, u *FuncRef) {
 	for _, s := range u.Decl.Body.List {
 		if as, ok := s.(*ast.AssignStmt); ok && len(as.Lhs) == 1 && identObj(info, as.Lhs[0]) == res && res != nil {
 			base = identObj(info, as.Rhs[0])
+			// or a copy of an argument: append(<empty>, arg...)
+			if call, ok := unparen(as.Rhs[0]).(*ast.CallExpr); ok && builtinName(info, call) == "append" && len(call.Args) == 2 && call.Ellipsis.IsValid() {
+				empty := false
+				switch x := unparen(call.Args[0]).(type) {
+				case *ast.CallExpr: // []int(nil)
+					if len(x.Args) == 1 {
+						if id, ok := unparen(x.Args[0]).(*ast.Ident); ok && id.Name == "nil" {
+							empty = true
+						}
+					}
+				case *ast.CompositeLit:
+					empty = len(x.Elts) == 0
+				case *ast.Ident:
+					empty = x.Name == "nil"
+				}
+				if empty {
+					base = identObj(info, call.Args[1])
+				}
+			}
 		}
 		if rs, ok := s.(*ast.RangeStmt); ok {
 			outer = rs
@@ -1025,6 +1100,213 @@ func c03Union(c *Ctx, r *Report, u *FuncRef) {
 		}
 	}
 	r.Check(bad == "", clause, "R2 SKELETON", u.Name, c.pos(u.Decl.Pos()), "result = one argument plus every element of the other that it does not already contain", bad)
+}
+
+// c03OwnStorage — Traverse starts F(x) as the slice F′(x) itself and Union appends in place onto its second argument.
+// That is sound only while no two entries of an initial-set map share a backing array: otherwise the terminals one
+// transition gains overwrite those of another, and which one survives depends on the traversal order. Every store
+// into DRSet / ReadSet / FollowSet outside Digraph must therefore assign a slice of its own: a literal, make, the
+// result of a function that builds its result from nil, or append onto the same entry.
+func c03OwnStorage(c *Ctx, r *Report, clause string) {
+	// premise: is the in-place style present at all?
+	inPlace := false
+	if u := c.Func("LALR", "", "Union"); u != nil {
+		info := u.Pkg.TypesInfo
+		ps := paramObjs(info, u.Decl)
+		ast.Inspect(u.Decl.Body, func(n ast.Node) bool {
+			if as, ok := n.(*ast.AssignStmt); ok && len(as.Rhs) == 1 {
+				for _, p := range ps {
+					if identObj(info, as.Rhs[0]) == p {
+						inPlace = true // c := b: the result starts as an argument's own slice
+					}
+				}
+			}
+			return true
+		})
+	}
+	key := "LALR/set-entries-own-their-storage"
+	if !inPlace {
+		r.OK(clause, "R12 OWNERSHIP", key, "LALR/Digraph.go", "Union builds its result in a slice of its own: shared entries would be harmless")
+		return
+	}
+	// (a) sharing made by Traverse itself: the members of a strongly connected component receive one and the same
+	// slice ((*F)[top] = (*F)[x]) and F(x) starts as the slice F′(x); the result map of one phase is the initial-set
+	// map of the next (ReadSet: result of the reads phase, F′ of the includes phase). With an in-place Union the
+	// next phase then appends onto a slice that several keys hold.
+	if t := c.Func("LALR", "", "Traverse"); t != nil {
+		info := t.Pkg.TypesInfo
+		ps := paramObjs(info, t.Decl)
+		sharesPos := token.NoPos
+		if len(ps) == 6 {
+			isElemOf := func(e ast.Expr, m types.Object) bool {
+				ix, ok := unparen(e).(*ast.IndexExpr)
+				if !ok {
+					return false
+				}
+				root := unparen(ix.X)
+				if st, ok := root.(*ast.StarExpr); ok {
+					root = unparen(st.X)
+				}
+				return identObj(info, root) == m
+			}
+			ast.Inspect(t.Decl.Body, func(n ast.Node) bool {
+				if as, ok := n.(*ast.AssignStmt); ok && len(as.Lhs) == 1 && len(as.Rhs) == 1 {
+					if isElemOf(as.Lhs[0], ps[3]) && isElemOf(as.Rhs[0], ps[3]) && exprString(as.Lhs[0]) != exprString(as.Rhs[0]) {
+						sharesPos = as.Pos()
+					}
+				}
+				return true
+			})
+		}
+		// phase chaining: a field passed as &F in one Digraph call and as Fp in another
+		asResult, asInit := map[string]bool{}, map[string]bool{}
+		for _, f := range c.AllFuncs() {
+			if !strings.HasPrefix(f.Name, "LALR.") {
+				continue
+			}
+			info := f.Pkg.TypesInfo
+			ast.Inspect(f.Decl.Body, func(n ast.Node) bool {
+				call, ok := n.(*ast.CallExpr)
+				if !ok || len(call.Args) != 4 {
+					return true
+				}
+				if fn := callee(info, call); fn == nil || shortFuncName(fn) != "LALR.Digraph" {
+					return true
+				}
+				if fv := fieldVar(info, call.Args[2]); fv != nil {
+					asInit[fv.Name()] = true
+				}
+				if u, ok := unparen(call.Args[3]).(*ast.UnaryExpr); ok && u.Op == token.AND {
+					if fv := fieldVar(info, u.X); fv != nil {
+						asResult[fv.Name()] = true
+					}
+				}
+				return true
+			})
+		}
+		chained := ""
+		for _, name := range sortedKeys(asResult) {
+			if asInit[name] {
+				chained = name
+			}
+		}
+		if sharesPos != token.NoPos && chained != "" {
+			r.Fail(clause, "R12 OWNERSHIP", "LALR.Traverse/shared-entries-are-appended-in-place", c.pos(sharesPos),
+				"Traverse gives all members of a strongly connected component one slice ((*F)[top] = (*F)[x]); "+chained+" is the result of one Digraph phase and the initial-set map of the next, where F(x) starts as that very slice and Union appends onto it in place (c := b; append(c, …)): with spare capacity the terminal added for one member overwrites the one added for another, and which survives depends on the traversal order. Needs a cycle in the first relation (reads), i.e. nullable nonterminals in a cyclic grammar")
+		} else {
+			r.OK(clause, "R12 OWNERSHIP", "LALR.Traverse/shared-entries-are-appended-in-place", c.pos(t.Decl.Pos()), "no map that holds shared slices is appended in place by a later phase")
+		}
+	}
+	fields := map[string]bool{"DRSet": true, "ReadSet": true, "FollowSet": true}
+	bad := ""
+	n := 0
+	for _, f := range c.AllFuncs() {
+		if !strings.HasPrefix(f.Name, "LALR.") || f.Name == "LALR.Digraph" || f.Name == "LALR.Traverse" || f.Name == "LALR.Union" {
+			continue
+		}
+		info := f.Pkg.TypesInfo
+		ast.Inspect(f.Decl.Body, func(nd ast.Node) bool {
+			as, ok := nd.(*ast.AssignStmt)
+			if !ok || len(as.Lhs) != len(as.Rhs) {
+				return true
+			}
+			for i, l := range as.Lhs {
+				ix, ok := unparen(l).(*ast.IndexExpr)
+				if !ok {
+					continue
+				}
+				fv := fieldVar(info, ix.X)
+				if fv == nil || !fields[fv.Name()] {
+					continue
+				}
+				n++
+				if why := notFreshSlice(c, info, as.Rhs[i], l, 0); why != "" {
+					bad = fmt.Sprintf("%s stores %s into %s at %s: %s", f.Name, exprString(as.Rhs[i]), exprString(l), c.pos(as.Pos()), why)
+				}
+			}
+			return true
+		})
+	}
+	r.Check(bad == "" && n >= 3, clause, "R12 OWNERSHIP", key, "LALR/LALR.go",
+		fmt.Sprintf("%d stores into DRSet / ReadSet / FollowSet outside Digraph: each assigns a slice of its own (literal, make, a function result built from nil, or append onto the same entry), so Union's in-place append never touches another entry", n),
+		"two entries of an initial-set map can share a backing array, and Union appends in place: "+bad)
+}
+
+// notFreshSlice returns "" when e certainly denotes storage no other map entry holds.
+func notFreshSlice(c *Ctx, info *types.Info, e ast.Expr, target ast.Expr, depth int) string {
+	switch x := unparen(e).(type) {
+	case *ast.CompositeLit:
+		return ""
+	case *ast.Ident:
+		if x.Name == "nil" {
+			return ""
+		}
+		return "the value is a variable, which can hold the same slice for several keys"
+	case *ast.CallExpr:
+		switch builtinName(info, x) {
+		case "make":
+			return ""
+		case "append":
+			if len(x.Args) >= 1 && exprString(x.Args[0]) == exprString(target) {
+				return ""
+			}
+			if len(x.Args) >= 1 {
+				return notFreshSlice(c, info, x.Args[0], target, depth)
+			}
+		}
+		fn := callee(info, x)
+		ref := c.FuncOf(fn)
+		if ref == nil || depth > 1 {
+			return "the value comes from a call whose result cannot be shown to be newly built"
+		}
+		// every return returns a local that is only ever nil / literal / make / append(itself, …)
+		rinfo := ref.Pkg.TypesInfo
+		why := ""
+		ast.Inspect(ref.Decl.Body, func(n ast.Node) bool {
+			rt, ok := n.(*ast.ReturnStmt)
+			if !ok || len(rt.Results) != 1 {
+				return true
+			}
+			o := identObj(rinfo, rt.Results[0])
+			if o == nil {
+				if w := notFreshSlice(c, rinfo, rt.Results[0], nil, depth+1); w != "" {
+					why = w
+				}
+				return true
+			}
+			ast.Inspect(ref.Decl.Body, func(m ast.Node) bool {
+				switch y := m.(type) {
+				case *ast.AssignStmt:
+					for i, l := range y.Lhs {
+						if identObj(rinfo, l) != o || len(y.Lhs) != len(y.Rhs) {
+							continue
+						}
+						rhs := unparen(y.Rhs[i])
+						if call, ok := rhs.(*ast.CallExpr); ok && builtinName(rinfo, call) == "append" && len(call.Args) >= 1 && identObj(rinfo, call.Args[0]) == o {
+							continue
+						}
+						if w := notFreshSlice(c, rinfo, rhs, nil, depth+1); w != "" {
+							why = "the callee's result " + o.Name() + " can be " + exprString(rhs) + " (" + w + ")"
+						}
+					}
+				case *ast.ValueSpec:
+					for i, nm := range y.Names {
+						if rinfo.Defs[nm] == o && i < len(y.Values) {
+							if w := notFreshSlice(c, rinfo, y.Values[i], nil, depth+1); w != "" {
+								why = "the callee's result " + o.Name() + " is initialised with " + exprString(y.Values[i]) + " (" + w + ")"
+							}
+						}
+					}
+				}
+				return true
+			})
+			return true
+		})
+		return why
+	case *ast.IndexExpr, *ast.SelectorExpr, *ast.SliceExpr:
+		return "the value is read from other storage (" + exprString(e) + "), which keeps a reference to the same array"
+	}
+	return "unrecognised expression"
 }
 
 // ---------------------------------------------------------------------------------------------
